@@ -11,6 +11,7 @@ from lxml import etree
 from .. import classify, drive, env, hist, snap, world
 from ..oracle import xmlread, xsdlite
 
+TECHNIQUE = 'runtime monitoring: every written file validated with libxml2 XMLSchema and a hand-written content-model checker after every generated command'
 LEVEL = "exploration"
 RULE = (
     "case = tree x sequence of 1-4 commands drawn from create (1-6 formats incl. repeats, -n, -dr after renames, -i/-ii, "
